@@ -32,25 +32,25 @@ def build_obs(tier, tables=None):
         add(2, sh)
     # cfg_rmsec()/cfg_setint() by path = the same resolver call followed by the single-level mutators
     # (cfg_opt_rmnsec, cfg_opt_setnint: C09).  With a symbolic target the release of a whole section /
-    # the reset of defaults exhausts the solver (no verdict in 300 s), so those entry points are only
-    # attempted in the thorough tier and are otherwise outside the machine-checked claim.
+    # the reset of defaults gives no verdict within 300 s (FN=3/4 of the harness), so the composition of
+    # these two-line wrappers is outside the machine-checked claim in both tiers.
     if tier != "quick":
-        for sh in ("N", "N=Q", "N|"):
-            add(3, sh)
-        for sh in ("N", "N|N"):
-            add(4, sh)
+        for sh in ("N=QQQ|N", "N='qqq'|N", "N|N|N=Q"):
+            add(1, sh)
+        for sh in ("N=QQQ", "N='qqq'", "N|N|N"):
+            add(2, sh)
     return obs
 
 
 def run(tier, seed):
     return run_with(
         "C11", tier, seed, build_obs, functions=FUNCS,
-        bounds="shaped paths: the positions of '|', '=', quotes and backslashes are a concrete obligation parameter (39 shapes incl. leading/trailing/doubled separators, stray '=', empty qualifier, unterminated quote, bad escape, text glued to a closing quote), every other byte symbolic; tree: root {int, single section, multi section x2, titled multi section x2} with 2 sub-options per instance; entry points cfg_getopt and cfg_getsec (cfg_rmsec / cfg_setint only in the thorough tier, see assumptions)",
+        bounds="shaped paths: the positions of '|', '=', quotes and backslashes are a concrete obligation parameter (39 shapes incl. leading/trailing/doubled separators, stray '=', empty qualifier, unterminated quote, bad escape, text glued to a closing quote), every other byte symbolic; tree: root {int, single section, multi section x2, titled multi section x2} with 2 sub-options per instance; entry points cfg_getopt and cfg_getsec",
         assumptions=[
             "oracle = stepwise walk with single-level look-ups written in the harness; index qualifiers other than plain decimal numerals are grey (lenient strtol)",
             "strdup/strndup modelled with a fixed 8-byte capacity (functional agreement only); unshaped arbitrary paths, deeper trees and long names are outside the claim",
             "termination = the resolver's loop is unwound (number of segments + 1) times under unwinding assertions",
-            "by-path setters and removers are the same resolver call followed by the single-level mutators checked under C09; their composition is not machine-checked in the quick tier (solver budget)",
+            "by-path setters and removers are the same resolver call followed by the single-level mutators checked under C09; their composition is not machine-checked (no verdict within the solver budget when the target is symbolic)",
         ])
 
 
